@@ -686,7 +686,123 @@ fn run_timing(t: &Timing) -> (Duration, String, Option<(String, String)>, bool) 
     (el, outcome, viol, true)
 }
 
+//
+// Part C: free running, no timing decisions: long address lists (every refusing address answers at
+// once, the only accepting one comes last) and a two-step sequence in which the address that
+// refused during the first race accepts during the second (no memory between races: the order is
+// the resolver's every time).
+//
+fn free_running_cells() -> Vec<(String, Option<(String, String)>)> {
+    let mut out = Vec::new();
+    for k in [7usize, 8, 9, 12, 20] {
+        for mixed in [false, true] {
+            let name = format!("long-list:{k}-refusing-then-one-accepting:{}", if mixed { "both-families" } else { "v4" });
+            let mut refusing = Vec::new();
+            let mut ok = true;
+            for i in 0..k {
+                match bound_not_listening(mixed && i % 2 == 0, 0) {
+                    Some(x) => refusing.push(x),
+                    None => ok = false,
+                }
+            }
+            let peer = start_peer(0, Addr { v6: false, accepts: true }, 0);
+            let (Some(peer), true) = (peer, ok) else {
+                out.push((name, None));
+                continue;
+            };
+            let mut list: Vec<SocketAddr> = refusing.iter().map(|r| r.1).collect();
+            list.push(peer.addr);
+            attohttpc::verif::set_resolution("many.test", Some(list));
+            let t0 = Instant::now();
+            let res = guarded(|| attohttpc::get("http://many.test:7777/").connect_timeout(Duration::from_secs(3)).read_timeout(Duration::from_secs(5)).send().and_then(|r| r.text()));
+            let el = t0.elapsed();
+            attohttpc::verif::set_resolution("many.test", None);
+            peer.stop.store(true, Ordering::SeqCst);
+            let viol = match &res {
+                Ok(Ok(b)) if b == "L0" && el < Duration::from_secs(3) => None,
+                other => Some((
+                    "reachable-address-not-used".to_string(),
+                    format!("{k} addresses that refuse at once followed by one that accepts ({}): {} after {el:?}", if mixed { "both families" } else { "IPv4 only" }, format!("{other:?}").chars().take(140).collect::<String>()),
+                )),
+            };
+            out.push((name, viol));
+        }
+    }
+    // two races in a row over the same two addresses
+    for v6 in [false, true] {
+        let name = format!("sequence:refuses-then-accepts:{}", if v6 { "v6" } else { "v4" });
+        let Some((fd_a, addr_a)) = bound_not_listening(v6, 0) else {
+            out.push((name, None));
+            continue;
+        };
+        let Some(peer_b) = start_peer(1, Addr { v6, accepts: true }, 0) else {
+            out.push((name, None));
+            continue;
+        };
+        let list = vec![addr_a, peer_b.addr];
+        let fetch = |list: &Vec<SocketAddr>| {
+            attohttpc::verif::set_resolution("twice.test", Some(list.clone()));
+            let r = guarded(|| attohttpc::get("http://twice.test:7777/").connect_timeout(Duration::from_secs(3)).read_timeout(Duration::from_secs(5)).send().and_then(|r| r.text()));
+            attohttpc::verif::set_resolution("twice.test", None);
+            format!("{r:?}").chars().take(100).collect::<String>()
+        };
+        let first = fetch(&list);
+        // address A starts to accept
+        let stop = Arc::new(AtomicBool::new(false));
+        let s2 = stop.clone();
+        let l: TcpListener = unsafe {
+            use std::os::fd::{AsRawFd, FromRawFd};
+            libc::listen(fd_a.as_raw_fd(), 16);
+            TcpListener::from_raw_fd(libc::dup(fd_a.as_raw_fd()))
+        };
+        let h = std::thread::spawn(move || {
+            l.set_nonblocking(true).unwrap();
+            while !s2.load(Ordering::SeqCst) {
+                match l.accept() {
+                    Ok((mut s, _)) => {
+                        let _ = s.set_nonblocking(false);
+                        let _ = s.set_read_timeout(Some(Duration::from_millis(300)));
+                        let mut buf = [0u8; 2048];
+                        let _ = s.read(&mut buf);
+                        let _ = s.write_all(b"HTTP/1.1 200 OK\r\nContent-Length: 2\r\n\r\nL0");
+                    }
+                    Err(_) => std::thread::sleep(Duration::from_millis(1)),
+                }
+            }
+        });
+        let second = fetch(&list);
+        stop.store(true, Ordering::SeqCst);
+        peer_b.stop.store(true, Ordering::SeqCst);
+        let _ = h.join();
+        let viol = if first != "Ok(Ok(\"L1\"))" {
+            Some(("reachable-address-not-used".to_string(), format!("resolver answer [A refuses, B accepts]: {first}")))
+        } else if second != "Ok(Ok(\"L0\"))" {
+            Some((
+                "attempt-order".to_string(),
+                format!("two requests in a row to a name resolving to [A, B]: during the first A refused and B answered; during the second both accept and the first address in resolver order must be used, but the exchange went: {second}"),
+            ))
+        } else {
+            None
+        };
+        out.push((name, viol));
+    }
+    out
+}
+
 pub fn c17(ctx: &Ctx) -> Report {
+    let mut free_run = 0u64;
+    let mut free_skipped = 0u64;
+    for (name, viol) in free_running_cells() {
+        match viol {
+            None if name.is_empty() => {}
+            None => free_run += 1,
+            Some((sig, what)) => {
+                free_run += 1;
+                ctx.violation(format!("C17:{sig}"), format!("{name}: {what}"), json!({"engine": "c17", "free_running": true}), 1);
+            }
+        }
+        let _ = &mut free_skipped;
+    }
     // Part B (sequential: black holes are scarce kernel state, and timing matters)
     let timings: Vec<Timing> = vec![
         Timing { holes: vec![], accepting_v6: false, connect_timeout_ms: 3000 },
@@ -791,10 +907,11 @@ pub fn c17(ctx: &Ctx) -> Report {
     rep.set("executions_retried_for_timing", retried);
     rep.set("timing_cases_run", timing_run);
     rep.set("timing_cases_skipped_no_black_hole", timing_skipped);
+    rep.set("free_running_long_list_and_sequence_cells", free_run);
     rep.set("exhaustive", true);
     rep.set(
         "rule",
-        format!("Part A: address lists with 0..{} addresses per family (at most {} in all) x resolver order {{v6 first, v4 first, interleaved}} x every accept/refuse assignment x deadline {{none, long, already expired}}; for each, EVERY arrival schedule: at each race window and in the final drain the explorer decides which pending attempt's result reaches the channel next or that the window expires (attempt threads are held at the library's schedule point just before they report); full DFS, no deviation bound; a schedule is a distinct sequence of such decisions. Part B: 0..3 unresponsive addresses (listener with a full backlog of 0) ahead of an accepting one, real clock.", ctx.tier.pick(2, 3), ctx.tier.pick(3, 4)),
+        format!("Part A: address lists with 0..{} addresses per family (at most {} in all) x resolver order {{v6 first, v4 first, interleaved}} x every accept/refuse assignment x deadline {{none, long, already expired}}; for each, EVERY arrival schedule: at each race window and in the final drain the explorer decides which pending attempt's result reaches the channel next or that the window expires (attempt threads are held at the library's schedule point just before they report); full DFS, no deviation bound; a schedule is a distinct sequence of such decisions. Part C (free running): 7..20 addresses that refuse at once followed by one that accepts, and two races in a row over [A, B] where A refuses during the first and accepts during the second. Part B: 0..3 unresponsive addresses (listener with a full backlog of 0) ahead of an accepting one, real clock.", ctx.tier.pick(2, 3), ctx.tier.pick(3, 4)),
     );
     rep.assume("an attempt that 'never answers' is an attempt whose result is held back until the race is over (or, in the drain, until the others have reported); the connect timeout itself is exercised in Part B with real unresponsive addresses");
     rep.assume("deadlines shorter than one race interval are not explored under gates (real time is not virtualised); 'already expired' and 'long' are");
@@ -802,6 +919,13 @@ pub fn c17(ctx: &Ctx) -> Report {
 }
 
 pub fn replay(v: &serde_json::Value) -> i32 {
+    if v["case"]["free_running"] == true {
+        let r = free_running_cells();
+        for (n, v) in &r {
+            println!("{n}: {v:?}");
+        }
+        return if r.iter().any(|(_, v)| v.is_some()) { 1 } else { 0 };
+    }
     if !v["case"]["timing"].is_null() {
         let t: Timing = serde_json::from_value(v["case"]["timing"].clone()).expect("timing");
         let (el, outcome, viol, ran) = run_timing(&t);
